@@ -630,6 +630,35 @@ def typed_cases(rnd, per_combo):
     return out
 
 
+# ---- handle routes: every command of a history through a generator-chosen handle to the SAME array ----------------
+HANDLES = {
+    'c': 'the creating handle',
+    'p': 'second handle fetched by name right after creation and peeked (dataExtent, dataType, one read, polynomCoefficients, '
+         'expansionOrigin), re-fetched and peeked after every reopen',
+    'n': 'fetched by name for this call',
+    'i': 'fetched by id for this call',
+    'x': 'fetched by index for this call',
+    'b': 'stored handle obtained through a second Block handle (peeked)',
+    'B': 'second Block handle fetched for this call, array fetched from it',
+}
+HANDLE_WEIGHTS = [('c', 2), ('p', 4), ('n', 2), ('i', 1), ('x', 1), ('b', 3), ('B', 1)]
+NO_HANDLE = ('create', 'tcreate', 'reopen', 'has', 'ndidx', 'ndset', 'applypoly', 'str2dt')
+MUTATORS = ('write', 'rawwrite', 'writeall', 'append', 'extent', 'poly', 'polyc', 'origin', 'tsetall', 'tset')
+
+
+def with_handles(rnd, lines, p=0.85):
+    """prefix the commands with handles; mutators and readers get independent choices, so a value written through one
+    handle is read through another"""
+    hs, ws = zip(*HANDLE_WEIGHTS)
+    out = []
+    for l in lines:
+        if l.split(' ', 1)[0] in NO_HANDLE or rnd.random() > p:
+            out.append(l)
+        else:
+            out.append('@%s %s' % (rnd.choices(hs, ws)[0], l))
+    return out
+
+
 # ---- further public routes (notes/route-audit.md, section C01) ---------------------------------------------------
 MORE_ROUTES = {
     'tcreate': 'template Block::createDataArray(name, type, const T &data, DataType data_type, Compression) - create and fill',
@@ -837,19 +866,34 @@ class C01(Prop):
                 else:
                     h = make_history(rnd)
                 tag = 'hist-' + h.dt
-                cases.append(Case(h.lines, tag))
+                cases.append(Case(with_handles(rnd, h.lines), tag))
             # calibrated-read stream: numeric arrays, polynomials of degree 0..3, special values
             for i in range(max(20, n // 10)):
                 dt = rnd.choice(NUMERIC + ['Bool'])
                 h = make_history(rnd, dt, rnd.choice([1, 2, 3]), None, rnd.randint(5, 12), [20, 10, 3, 3, 2, 50, 5, 2, 5])
-                cases.append(Case(h.lines, 'calibrated'))
+                cases.append(Case(with_handles(rnd, h.lines), 'calibrated'))
             cases += string_unwritten_cases(rnd, nstr)
         cases += short_arg_cases(random.Random(seed))
         cases += typed_cases(random.Random(seed * 31 + 7), 1 if (tier == 'quick' and scale == 1) else 6)
         cases += create_fill_cases(random.Random(seed * 37 + 11), 1 if (tier == 'quick' and scale == 1) else 8)
         cases += stateless_route_cases(random.Random(seed * 41 + 13), 1 if (tier == 'quick' and scale == 1) else 6)
+        hr = random.Random(seed * 43 + 17)
+        for c in cases:
+            if (c.tag.startswith('typed-') or c.tag == 'route-tcreate' or c.tag.startswith('fixed-')) and hr.random() < 0.6:
+                c.lines = with_handles(hr, c.lines)
+        calls = {h: {'mutating': 0, 'reading': 0} for h in HANDLES}
+        for c in cases:
+            for l in c.lines:
+                tk = l.split(' ')
+                cmd = tk[1] if tk[0].startswith('@') and len(tk) > 1 else tk[0]
+                if cmd in NO_HANDLE:
+                    continue
+                h = tk[0][1:] if tk[0].startswith('@') else 'c'
+                calls[h]['mutating' if cmd in MUTATORS else 'reading'] += 1
+        self._handle_calls = calls
         # how many calls each further route got (goes into the evidence)
-        self._route_calls = {k: sum(1 for c in cases for l in c.lines if l.split(' ', 1)[0] == k) for k in MORE_ROUTES}
+        self_count = lambda k: sum(1 for c in cases for l in c.lines if k in l.split(' ')[:2])
+        self._route_calls = {k: self_count(k) for k in MORE_ROUTES}
         if os.environ.get('NIXV_C01_XPROBE') == '1':
             cases += xprobe_cases()
         return cases
@@ -862,6 +906,7 @@ class C01(Prop):
                 'Int16..UInt32/Float/Double only next to a zero extent (tag typed-%s-huge)' % r if r in ('ma', 'nd') else
                 'Bool/Int8/UInt8 (c1: N=300, c2: [260][2], vec/val: up to 300 elements)' if r != 'sc' else 'not applicable (no extent)'}
             for r in ROUTES}
+        ctx['ev']['handle_routes'] = {h: {'what': HANDLES[h], 'calls': getattr(self, '_handle_calls', {}).get(h, {})} for h in HANDLES}
         ctx['ev']['further_public_routes'] = {k: {'what': MORE_ROUTES[k], 'calls': getattr(self, '_route_calls', {}).get(k, 0)}
                                               for k in MORE_ROUTES}
         ctx['ev']['typed_container_routes_not_covered'] = ['std::array (the library has no data_traits for it)',
@@ -874,7 +919,9 @@ class C01(Prop):
         dt = t[1] if len(t) > 1 else '?'
         # first line where implementation and specification differ
         k = next((i for i, (a, b) in enumerate(zip(impl, spec)) if b != 'ANY' and not self.compare(a, b)), 0)
-        op = case.lines[k].split(' ')[0]
+        tk = case.lines[k].split(' ')
+        via = tk[0][1:] if tk[0].startswith('@') else 'c'
+        op = tk[1] if tk[0].startswith('@') and len(tk) > 1 else tk[0]
         a, b = impl[k], spec[k]
         if case.tag == 'route-tcreate' and not a.startswith('CRASH'):
             return {'kind': 'create-and-fill leaves the array behind when the write fails (or builds a wrong request)',
@@ -891,7 +938,8 @@ class C01(Prop):
             return {'kind': 'read of never-written String element', 'crash': 'null char* into std::string (StringWriter::finish)'}
         if a.startswith('CRASH'):
             return {'kind': 'crash', 'op': op, 'dtype': dt, 'crash': a.split(' ', 1)[1][:60]}
-        return {'kind': 'wrong-answer', 'op': op, 'dtype': dt, 'refused': a.startswith('ERR'), 'spec_refuses': b.startswith('ERR')}
+        return {'kind': 'wrong-answer', 'op': op, 'dtype': dt, 'handle': '@%s %s' % (via, HANDLES.get(via, '?').split(' (')[0]),
+                'refused': a.startswith('ERR'), 'spec_refuses': b.startswith('ERR')}
 
     def describe(self, case, impl, spec):
         k = next((i for i, (a, b) in enumerate(zip(impl, spec)) if b != 'ANY' and not self.compare(a, b)), 0)
